@@ -80,7 +80,7 @@ CHECKS["C01"] = {
     "explanation": "refinement theorem Impl -> RFC 1951 specification + 4-way differential",
 }
 CHECKS["C02"] = {
-    "families": ["brd", "win"],
+    "families": ["brd", "brr", "win"],
     "trusted_base": ["libbrotlidec (cgo, in-tree internal/cgo/brotli) is the reference of the property itself", "Brotli.Spec is my reading of RFC 7932 (static dictionary taken from /repo on every run), validated on every run against libbrotlidec and brotli.Reader on every input of family brd", "there is no Go-shaped model of brotli.Reader's control flow: 'brotli.Reader = specification' is a correspondence, not a refinement theorem", "Window/Prefix/BitIO models as in C01/C20"],
     "assumptions": ["reject classes on invalid (not merely truncated) streams are not compared: RFC 7932 does not fix which check fires first"],
     "level_text": "partial: a Lean specification of RFC 7932 exists and is compared on every run with brotli.Reader and libbrotlidec (verdict, output length and hash on ~30k inputs per quick run: every <=1-byte string, a stride of the 2-byte strings, libbrotlienc output at qualities 0-11, streams from an independent synthesiser - all WBITS/NPOSTFIX/NDIRECT, one-symbol codes, arbitrary ring-buffer distance codes, several meta-blocks, uncompressed and metadata meta-blocks -, one-command streams for every transform x word length, mutations; reject class on cuts of valid streams; the 121 transforms against Go's transformWord on sampled words of every length). Proved: the components brotli.Reader shares with modelled code - its LZ77 window (C02_window), bit reader over every source shape (C02_bitreader), prefix-table decoder (C02_prefix_decoder) - and sanity theorems pinning the specification (tables, smallest streams, kernel-evaluated examples). NOT proved: that a Go-shaped model of brotli.Reader refines the specification (no such model).",
@@ -113,7 +113,7 @@ CHECKS["C08"] = {
     "explanation": "allocation and termination theorems on the models + recover/watchdog sweep",
 }
 CHECKS["C09"] = {
-    "families": ["fl", "bz", "life", "xo", "xk"],
+    "families": ["fl", "bz", "life", "xo", "xk", "brr"],
     "trusted_base": [FLSPEC, BZSPEC, "error-site facts are regenerated from /repo by the go/ast extractor and pinned by theorem (Compress.Facts.Sites)"],
     "assumptions": ["I/O errors passed through verbatim: sweep with failing sources (families bio, life), no theorem"],
     "level_text": "partial: C09_error_sites_classified (every error site of /repo on a decoding path raises Corrupted/Deprecated or is a listed exception - regenerated on every run), C09_deflate_cut_is_ueof, C09_bzip2_cut_is_ueof and C09_brotli_cut_is_ueof (a valid stream cut at any byte: exactly unexpected EOF / never corrupt, on the three format specifications), C09_flate_classes (flate.Reader model ends with the class matching the specification), C09_xflate_sticky / C09_xflate_close / C09_xflate_seek_keeps / C09_flate_sticky (latched error: no data, same error, Close reports it). Sticky + Close for bzip2/brotli/meta Readers and verbatim I/O errors: sweep (call sequences, truncation at every byte through 11 source kinds, injected source errors at every position incl. a source that fails instead of reporting io.EOF, xflate streams with a damaged chunk).",
@@ -121,7 +121,7 @@ CHECKS["C09"] = {
     "explanation": "regenerated error-site facts + cut theorems + sticky lemmas + fault sweep",
 }
 CHECKS["C10"] = {
-    "families": ["bio", "fl", "brd", "bz", "meta"],
+    "families": ["bio", "fl", "brd", "brr", "bz", "meta"],
     "trusted_base": ["bit reader model (both source modes, adversarial Buffered()) tied to /repo by scripted correspondence (family bio)"],
     "assumptions": ["Buffered() answers are stable between Peek/Discard/Read (a source that shrinks them is outside the BufferedReader contract)"],
     "level_text": "partial: C10_flate_read_sizes (any two Read schedules, zeros included: same bytes, same final error), C10_source_shape (ReadByte-only vs Peek/Discard with any Buffered() adversary: same fields = the plain bit list), C10_bzip2_read_sizes (resumable RLE1 for every schedule), C10_xflate_any_fragmentation (C07 for every inflater behaviour). Whole-reader independence for bzip2, brotli, flate and meta: sweep over 11 source kinds (with and without bytes after the stream) and Read-size schedules with zero-length buffers.",
